@@ -290,18 +290,6 @@ def float_hex(v):
     return struct.pack('>d', v).hex()
 
 
-def env_distance(g0, g1):
-    """Envelope::distance(this = envelope of g0, envelope of g1) with the operations of include/geos/geom/Envelope.h in their order (binary64)"""
-    p0 = G.all_points(g0); p1 = G.all_points(g1)
-    minx, maxx = min(float(p[0]) for p in p0), max(float(p[0]) for p in p0)
-    miny, maxy = min(float(p[1]) for p in p0), max(float(p[1]) for p in p0)
-    eminx, emaxx = min(float(p[0]) for p in p1), max(float(p[0]) for p in p1)
-    eminy, emaxy = min(float(p[1]) for p in p1), max(float(p[1]) for p in p1)
-    dx = max(0.0, max(maxx, emaxx) - min(minx, eminx) - (maxx - minx) - (emaxx - eminx))
-    dy = max(0.0, max(maxy, emaxy) - min(miny, eminy) - (maxy - miny) - (emaxy - eminy))
-    return math.sqrt(dx * dx + dy * dy)
-
-
 def rat(tok, K, n=1):
     """driver token num/den in units of 2^-K (times n) -> exact squared distance"""
     if tok == 'none':
@@ -517,8 +505,6 @@ def evaluate(c):
                     kinds.add('known:C08-K6')          # BasicPreparedGeometry: distance from the rounded nearest points, within from DistanceOp
                 elif pkind == 'indexed' and zl:
                     kinds.add('known:C08-K3')          # the prepared distance itself is wrong (too large) next to a zero-length line
-                elif got[j] == '0' and math.isfinite(t) and env_distance(a0, a1) > t and accept(float_hex(t), D, tau) != 'bad':
-                    kinds.add('known:C08-K7')          # Envelope::distanceSquared, evaluated as the code does, exceeds the threshold by rounding
                 elif math.isfinite(t) and D is not None and (Fraction(vv) ** 2 != D or pkind == 'indexed' or not small_grid) and \
                         max(Fraction(t) - tau, 0) ** 2 <= D <= (Fraction(t) + tau) ** 2:
                     kinds.add('known:C08-K1')          # the returned distance is inexact (or the indexed heuristic measures to the envelope) and the threshold lies inside the rounding envelope
@@ -628,14 +614,16 @@ def shrink(ctx, hexe, drv, c, clause, rng):
                     yield (t, d[:i] + [v] + d[i + 1:])
     A, B = c.A, c.B
     budget = 80
+    import time
+    t_end = time.time() + 40          # shrinking is best effort and bounded in time
     try:
         progress = True
-        while progress and budget > 0:
+        while progress and budget > 0 and time.time() < t_end:
             progress = False
             for which in (0, 1):
                 for v in variants(A if which == 0 else B):
                     budget -= 1
-                    if budget <= 0:
+                    if budget <= 0 or time.time() > t_end:
                         break
                     na, nb = (v, B) if which == 0 else (A, v)
                     if fails(na, nb):
@@ -722,7 +710,7 @@ def run(ctx):
     run_cases(ctx, hexe, drv, cases)
     ctx.log('implementation and oracle evaluated')
     dist = {'config': {}, 'transform': {}, 'types': {}, 'clauses': {}, 'zero_distance': 0, 'positive_distance': 0, 'known': {}}
-    known_by_id = {k['id']: k for k in ctx.known}
+    known_by_id = {k['id']: k for k in ctx.known if k.get('status') == 'known'}      # a fixed entry excuses nothing
     nviol = 0
     for c in cases:
         dist['config'][c.tag] = dist['config'].get(c.tag, 0) + 1
@@ -753,7 +741,8 @@ def run(ctx):
                     if dist['known'][kid] <= 2:
                         ctx.notes.setdefault('known_examples', []).append('%s: A=%s B=%s : %s' % (kid, G.to_wkt(c.A)[:300], G.to_wkt(c.B)[:300], det[:300]))
                 else:
-                    st = 'viol'      # the finding is not (or no longer) registered as known: it is a violation
+                    st = 'viol'      # the finding is not (or no longer: status fixed) registered as known: it is a violation
+                    det = 'REGRESSION of the fixed finding %s: %s' % (kid, det)
             if st == 'viol':
                 d['viol'] += 1
                 nviol += 1
